@@ -570,6 +570,12 @@ int main(int argc, char **argv) {
     std::vector<int> tiny20(g_tiny.begin(), g_tiny.begin() + std::min<size_t>(g_tiny.size(), 20));
     add_space(R, "byte255_tiny20", tiny20, [](const Entry &e) { return (uint64_t)e.bytes.size() * 255; }, byte255, mode0, true, false);
     add_space(R, "byte255_all", all_small, [](const Entry &e) { return (uint64_t)e.bytes.size() * 255; }, byte255, modes_q, false, true);
+    // the full byte alphabet on the carriers of <= 120 bytes of the sub-corpus (one per code-path signature): quick tier of the memory-safety
+    // part only (the defect 08e38e0 needed one particular value of one byte and was first seen by byte255_all in the thorough tier)
+    std::vector<int> sub120;
+    for (int i : g_sub)
+      if (g_corpus[i].bytes.size() <= 120) sub120.push_back(i);
+    add_space(R, "byte255_sub_small", sub120, [](const Entry &e) { return (uint64_t)e.bytes.size() * 255; }, byte255, mode0, g_mode == M_C02, false);
     // raw (not entropy coded) value blocks: a width byte with trailing data behind it - the full byte alphabet in the quick tier too
     std::vector<int> raw_storage;
     for (int i : all_gen)
